@@ -70,6 +70,18 @@ def idle(v, nested=True):
     return text_of('MACH_IDLE', out[0])
 
 
+def fault_line(v, pid=0):
+    """page-fault window whose nested real-fault record carries protection byte v (pid 0: a fault taken by the kernel)"""
+    tid = 5
+    evs = [EV.E(tid, 'MACH_vmfault', 1, args=[0x1000, 0, 0, 0]), EV.E(tid, 'RealFaultAddressInternal', 0, args=[0x1000, 3 | (v << 8), 3, pid]),
+           EV.E(tid, 'MACH_vmfault', 2, args=[0x1000, 0, 0, 3])]
+    p = EV.new_traces_parser()
+    out = [t for t in p.feed_generator(EV.realize(evs)) if t.ktraces[0].eventid == EV.eid('MACH_vmfault')]
+    if len(out) != 1:
+        raise Violation('trace-count', f'MACH_vmfault: {len(out)} traces')
+    return text_of('MACH_vmfault', out[0])
+
+
 Z4 = [0, 0, 0, 0]
 # family -> (observer(value) -> names, single-bit table {value: name}, fields [(mask, {value: name})], zero name or None)
 FAMILIES = {
@@ -91,6 +103,7 @@ FAMILIES = {
             {v: n for v, n in D.AST.items() if v}, [], 'AST_NONE'),
     'ast-dispatch': (lambda v: names_of(after(single('MACH_DISPATCH', [1, v, 0, 4]), 'reason: ', ', state:')),
                      {v: n for v, n in D.AST.items() if v}, [], 'AST_NONE'),
+    'vmprot-fault': (lambda v: names_of(after(fault_line(v), 'vm_prot: ', ', pid:')), {v: n for v, n in D.VM_PROT.items() if v}, [], 'VM_PROT_NONE'),
     'ast-idle': (lambda v: names_of(after(idle(v), 'reason: ', ', state:')), {v: n for v, n in D.AST.items() if v}, [], 'AST_NONE'),
     'thstate': (lambda v: names_of(after(single('MACH_DISPATCH', [1, 0, v, 4]), 'state: ')), D.TH_STATE, [], None),
     'kperfti': (lambda v: names_of(after(single('PERF_THD_Data', [1, 2, 3, v]), 'runmode: ')), D.KPERF_TI, [], None),
@@ -98,7 +111,7 @@ FAMILIES = {
     'sampler': (lambda v: names_of(after(single('PERF_Event', [v, 2, 3, 4]), 'sample_what: ', ', actionid')), D.SAMPLER, [], None),
     'rtld': (lambda v: names_of(param(render('DBG_DYLD_TIMING_DLOPEN', [0, 0, v, 0], [0, 5, 0, 0]), 1)), D.RTLD, [], None),
 }
-WIDTH = {'kperfti': 16, 'vmprot': 8}
+WIDTH = {'kperfti': 16, 'vmprot': 8, 'vmprot-fault': 8}
 # the field a zero-valued name speaks for: access mode is the 3-bit R|W|X field; AST/VM words are whole words
 ZERO_FIELD = {'access': 7}
 
@@ -111,6 +124,7 @@ NEIGHBOURS = {
     'ast-dispatch': [lambda v: names_of(after(single('MACH_DISPATCH', [7, v, 0xff, 9]), 'reason: ', ', state:'))],
     'callstack': [lambda v: names_of(after(single('PERF_STK_UHdr', [v, 500, 0, 0]), 'flags: ', ', frames count'))],
     'ast-idle': [lambda v: names_of(after(idle(v, nested=False), 'reason: ', ', state:'))],
+    'vmprot-fault': [lambda v: names_of(after(fault_line(v, 77), 'vm_prot: ', ', pid:'))],
 }
 
 
@@ -306,6 +320,7 @@ def run(ctx):
     add('fchflags', list(subsets(D.CHFLAGS))[::3])
     add('msg', sparse_words(D.MSG, 32, ctx.seed))
     add('vmprot', range(256))
+    add('vmprot-fault', range(256))
     add('ast', sparse_words(D.AST, 32, ctx.seed + 1))
     add('ast', (1 << i for i in range(22, 64)))
     add('ast-dispatch', sparse_words(D.AST, 24, ctx.seed + 2))
